@@ -637,6 +637,13 @@ class SuperProxy(object):
                 raise AttributeError(name)
         raise AttributeError(name)
 
+    def __getattribute__(self, name):
+        # names that SuperProxy itself defines as an object (`__init__`, `__eq__`, ...) must be resolved along the
+        # MRO of the proxied object too: super(K, self).__init__(...)
+        if name in ('_cls', '_obj', '__class__', '__dict__', '__getattr__'):
+            return object.__getattribute__(self, name)
+        return object.__getattribute__(self, '__getattr__')(name)
+
 
 @model(builtins.super)
 def m_super(ex, args, kw, st, fr, node):
@@ -644,3 +651,21 @@ def m_super(ex, args, kw, st, fr, node):
             and isinstance(args[1].cls, type) and args[0].obj in args[1].cls.__mro__:
         return _out(st, VPy(SuperProxy(args[0].obj, args[1])))
     raise Unsupported('super() form')
+
+
+import os as _os
+
+
+@model(_os.urandom)
+def m_urandom(ex, args, kw, st, fr, node):
+    """os.urandom(n): n arbitrary bytes (fresh, unconstrained); ValueError for negative n."""
+    n = ex._as_int(args[0])
+    res = []
+    ok, bad = ex.split(st, n.t >= 0)
+    if bad is not None:
+        res += _raise(ex, bad, ValueError, 'negative argument line %d' % getattr(node, 'lineno', 0))
+    if ok is not None:
+        r = VSeq(z3.Const(fresh_name('urandom'), smt.Seq), 'byte', 'bytes')
+        ok.assume(z3.And(slen(r.t) == n.t, isb(r.t)))
+        res += _out(ok, r)
+    return res
